@@ -107,7 +107,7 @@ pub fn script(rng: &mut Rng) -> Vec<Step> {
     if rng.chance(400) {
         for st in s.steps.iter_mut() {
             if rng.chance(500) {
-                st.hdr = 1 + rng.below(2) as u8;
+                st.hdr = 1 + rng.below(3) as u8;
             }
         }
     }
